@@ -26,6 +26,14 @@ def obligations():
                      "frame 1's displacement/distance satisfy the single-frame specification with frame 1's own cell", 600, params={"kernel": k, "cell": c, "second_frame": True, "cell0": c0}))
     for k in ("angle_mic_triclinic", "dihedral_mic"):
         o.append(Obl(f"C08.{k}.frames", "py", "harness.c07", "check_kernel", [f"geometry.cpp:{k}"], "2 frames x 2 index rows", "out[frame,row] is computed from that frame's displacements only", 300, params={"kernel": k}))
+    o.append(Obl("C08.sasa.groups_frame1", "py", "harness.c13", "check_sasa", ["sasa.cpp:sasa"], "3 atoms in 2 groups (fewer groups than atoms), 1 point; frame 0 concrete, frame 1 symbolic",
+                 "residue mode: every per-atom accumulator is reset between frames, not only the first n_groups", 600, params={"n_atoms": 3, "n_points": 1, "mapping": "residue", "max_paths": 20000}))
+    o.append(Obl("C08.python.kernel_choice", "xh", "harness.c05_py", "dispatch", ["mdtraj.geometry.distance.compute_distances_core", "compute_displacements", "compute_distances_t"],
+                 "3 frames, each orthorhombic or skewed (symbolic)", "a frame's distances must not depend on the cell SHAPE of the other frames in the call: the diagonal-only kernel is used only if every frame is orthorhombic", 300))
+    TJ = "mdtraj.core.trajectory.Trajectory."
+    o.append(Obl("C08.rmsd_traces.int", "xh", "harness.c03", "index_int", [TJ + "slice", TJ + "__getitem__", "mdtraj._rmsd"], "n<=3 frames, every int key, after center_coordinates()",
+                 "md.rmsd(t[k], ref, precentered=True) equals entry k of the full-trajectory result: the cached traces follow the selected frames", 200))
+    o.append(Obl("C08.rmsd_traces.list", "xh", "harness.c03", "index_list", [TJ + "slice", "mdtraj._rmsd"], "index lists of length 1..3 (repeats, reordering)", "same for permuted / repeated frames", 600, quick_pre="n >= 2 and i2 == 0", timeout_thorough=2400))
     return o
 
 
